@@ -22,7 +22,7 @@ VARIABLES cells,     \* the grid (never changes)
           cell,      \* that cell (meaningful while assigned)
           mode,      \* "idle" | "run" | "stopped"
           left,      \* trials the active optimize call may still start
-          failed     \* the most recent trial of the active call ended FAIL
+          failed     \* no trial in flight and the most recent trial of the active call ended FAIL
 vars == <<cells, gev, eev, pend, running, kind, assigned, cell, mode, left, failed>>
 
 Outcomes == {"COMPLETE", "FAIL", "PRUNED"}
@@ -58,8 +58,8 @@ StartTrial(enq) ==
   /\ running' = TRUE /\ assigned' = FALSE
   /\ kind' = IF enq THEN "enq" ELSE "grid"
   /\ pend' = IF enq THEN pend - 1 ELSE pend
-  /\ left' = left - 1
-  /\ UNCHANGED <<cells, gev, eev, cell, mode, failed>>
+  /\ left' = left - 1 /\ failed' = FALSE
+  /\ UNCHANGED <<cells, gev, eev, cell, mode>>
 
 Assign(c) ==
   /\ running /\ ~assigned /\ c \in cells
@@ -72,22 +72,24 @@ Finish(out) ==
   /\ gev' = IF kind = "grid" THEN [gev EXCEPT ![cell] = @ + 1] ELSE gev
   /\ eev' = IF kind = "enq" THEN [eev EXCEPT ![cell] = @ + 1] ELSE eev
   /\ running' = FALSE /\ failed' = (out = "FAIL")
-  /\ UNCHANGED <<cells, pend, kind, assigned, cell, mode, left>>
+  /\ kind' = "grid" /\ assigned' = FALSE /\ cell' = <<>>
+  /\ UNCHANGED <<cells, pend, mode, left>>
 
 ReturnSelf ==
   /\ mode = "run" /\ ~running /\ Covered
-  /\ mode' = "stopped"
-  /\ UNCHANGED <<cells, gev, eev, pend, running, kind, assigned, cell, left, failed>>
+  /\ mode' = "stopped" /\ left' = 0 /\ failed' = FALSE
+  /\ UNCHANGED <<cells, gev, eev, pend, running, kind, assigned, cell>>
 
 ReturnCap ==
   /\ mode = "run" /\ ~running /\ left = 0 /\ ~Covered
-  /\ mode' = "idle"
-  /\ UNCHANGED <<cells, gev, eev, pend, running, kind, assigned, cell, left, failed>>
+  /\ mode' = "idle" /\ left' = 0 /\ failed' = FALSE
+  /\ UNCHANGED <<cells, gev, eev, pend, running, kind, assigned, cell>>
 
 Interrupt ==
   /\ mode = "run" /\ ~running /\ failed
   /\ mode' = IF AllByGrid THEN "stopped" ELSE "idle"
-  /\ UNCHANGED <<cells, gev, eev, pend, running, kind, assigned, cell, left, failed>>
+  /\ left' = 0 /\ failed' = FALSE
+  /\ UNCHANGED <<cells, gev, eev, pend, running, kind, assigned, cell>>
 
 Done == mode = "stopped" /\ UNCHANGED vars
 
